@@ -323,6 +323,7 @@ type preState struct {
 	x, y      int
 	score     int
 	exp       int64
+	ok        bool // an entry existed
 	connected bool
 }
 
@@ -353,11 +354,11 @@ type erun struct {
 // snap records what x stores about y's IP (and whether y is connected) right now.
 func (r *erun) snap(x, y int) {
 	X, Y := r.nodes[x], r.nodes[y]
-	sc, exp, _ := X.conn.VerifPeerScore(Y.ip)
+	sc, exp, ok := X.conn.VerifPeerScore(Y.ip)
 	if r.pre == nil {
 		r.pre = map[[2]int]*preState{}
 	}
-	r.pre[[2]int{x, y}] = &preState{x: x, y: y, score: sc, exp: exp, connected: r.connected(x, y)}
+	r.pre[[2]int{x, y}] = &preState{x: x, y: y, score: sc, exp: exp, ok: ok, connected: r.connected(x, y)}
 }
 
 // siblingsConnected: peers other than y that are connected to x from y's IP address.
@@ -759,9 +760,11 @@ func (r *erun) penaltyOnBannedIP(x, y int, amount int, cause string, t0 time.Tim
 	}
 	var sc int
 	var exp int64
+	// an entry that differs from the snapshot; a missing entry is the sweep's doing (the penalty may still be on its way)
 	seen := waitFor(6*time.Second, func() bool {
-		sc, exp, _ = X.conn.VerifPeerScore(Y.ip)
-		return sc != pre.score || exp != pre.exp
+		var ok bool
+		sc, exp, ok = X.conn.VerifPeerScore(Y.ip)
+		return ok && (!pre.ok || sc != pre.score || exp != pre.exp)
 	})
 	t1 := time.Now()
 	if !seen {
